@@ -1,6 +1,7 @@
 """C18 - frozen networks cannot be structurally modified (mutators discovered by probing)."""
 import copy
 import inspect
+import itertools
 
 import numpy as np
 import random
@@ -370,6 +371,30 @@ def run_case(case, ctx):
     else:
         # whatever happened, the structure of a frozen network never changes
         ctx.check(nets.structure(F) == before, ("frozen", key + "." + name, "frozen-structure-changed-by-non-mutating-pair", case["via"]), lambda: "args %r" % (kw,))
+    # ---- cleanup: every combination of its flags (the in-place steps refuse one by one, so a single combination says little)
+    if name == "cleanup" and cand.startswith("method:"):
+        flags = [q for q in sig.parameters if q not in ("self", "in_place")]
+        for combo in itertools.product((False, True), repeat=len(flags)):
+            kwc = dict(zip(flags, combo), in_place=True)
+            U2 = nets.build(case["spec"])
+            b2 = nets.structure(U2)
+            try:
+                U2.cleanup(**kwc)
+            except Exception:  # noqa: BLE001
+                pass
+            mut2 = nets.structure(U2) != b2
+            F2 = nets.build(case["spec"])
+            F2.freeze()
+            f0 = state(F2)
+            e2 = None
+            try:
+                F2.cleanup(**kwc)
+            except Exception as e:  # noqa: BLE001
+                e2 = e
+            d2 = nets.diff_deep(f0, state(F2))
+            ctx.check(not d2, ("frozen", key + ".cleanup", "frozen-network-changed", "flag-sweep"), lambda: "flags %r changed %r" % (kwc, d2))
+            if mut2:
+                ctx.check(isinstance(e2, XGIError), ("frozen", key + ".cleanup", "structural-mutator-did-not-raise-XGIError", "flag-sweep"), lambda: "flags %r: %r" % (kwc, e2))
     # ---- copy of a frozen network: equal, unfrozen, editable
     try:
         Cp = F.copy()
